@@ -422,6 +422,32 @@ def extract_together_iteration(repo):
     return 'sorted' if all(k == 'sorted' for k in kinds) else 'declared'
 
 
+def extract_q_separators(repo):
+    """`QSerialization.child_separators` (django_evolution/serialization.py): connector -> operator text"""
+    tree = ast.parse(_src(repo, 'django_evolution/serialization.py'))
+    cls = _find_class(tree, 'QSerialization')
+    for n in cls.body:
+        if isinstance(n, ast.Assign) and any(isinstance(t, ast.Name) and t.id == 'child_separators' for t in n.targets):
+            if not isinstance(n.value, ast.Dict):
+                raise ExtractError('child_separators is not a dict literal')
+            out = []
+            for k, v in zip(n.value.keys, n.value.values):
+                if isinstance(k, ast.Attribute) and isinstance(k.value, ast.Name) and k.value.id == 'Q':
+                    key = k.attr
+                elif isinstance(k, ast.Constant):
+                    key = k.value
+                elif isinstance(k, ast.Call) and isinstance(k.func, ast.Name) and k.func.id == 'getattr' and \
+                        len(k.args) >= 2 and isinstance(k.args[1], ast.Constant):
+                    key = k.args[1].value
+                else:
+                    raise ExtractError('child_separators key not understood: %s' % ast.dump(k))
+                if not isinstance(v, ast.Constant):
+                    raise ExtractError('child_separators value not a literal')
+                out.append((key, v.value))
+            return out
+    raise ExtractError('QSerialization.child_separators not found')
+
+
 def regenerate(repo, outdir):
     os.makedirs(outdir, exist_ok=True)
     flags = {}
@@ -445,6 +471,12 @@ def regenerate(repo, outdir):
     parts.append('def attrDefaults : List (String × List (String × String)) := ' + lean_list(
         '(%s, %s)' % (lean_str(k), lean_list('(%s, %s)' % (lean_str(a), lean_str(v)) for a, v in ents))
         for k, ents in defaults))
+    seps = extract_q_separators(repo)
+    flags['q_separators'] = seps
+    parts.append('')
+    parts.append('/-- `QSerialization.child_separators` (django_evolution/serialization.py) -/')
+    parts.append('def qSeparators : List (String × String) := ' + lean_list(
+        '(%s, %s)' % (lean_str(k), lean_str(v)) for k, v in seps))
     titer = extract_together_iteration(repo)
     flags['together_iteration'] = titer
     parts.append('')
